@@ -130,7 +130,9 @@ def fam_kinds(rng, pid, kinds, count, n=(12, 20), styles=STYLES, twins=("batch",
         nn = rng.randint(*n) + (10 if tf else 0) + (2 * max(cfg.p, cfg.p2, cfg.p3) if max(cfg.p, cfg.p2, cfg.p3) > 6 else 0)
         style = rng.choice(styles)
         out.append(ind_scenario(rng, f"{pid}/{kind}/{t}", "kinds", cfg, nn, style, twins, tf=tf,
-                                reindex=(pid == "C10" and rng.random() < 0.35),
+                                # refreshing a reading that is already there (calculate_index, also on the first
+                                # candle and by negative index) must give the definition's value again
+                                reindex=(rng.random() < {"C10": 0.35, "C04": 0.2, "C05": 0.2, "C06": 0.2}.get(pid, 0.0)),
                                 extra=rng.randint(1, 5) if "longer" in twins else 0,
                                 regular=tf_regular(rng, tf) if tf and rng.random() < 0.6 else None))
     return out
@@ -207,12 +209,12 @@ def fam_manager(rng, pid, count, fills=(False,), has=(False,), lifes=(None,), he
         if rng.random() < hexshare:
             cfg = rand_cfg(rng, kind, tf=tf if rng.random() < 0.6 else None)
             hexcfg = {"timeframe": None if cfg.timeframe else tf, "fill": fill, "lifespan": lifespan, "ctype": ctype}
-            sc = hex_scenario(rng, f"{pid}/hexmgr{tag}/{tf}/{t}", "manager", [cfg], n, rng.choice(["mixed", "walk"]),
+            sc = hex_scenario(rng, f"{pid}/hexmgr{tag}/{tf}/{t}", "manager", [cfg], n, rng.choice(["mixed", "walk"] if ha else ["mixed", "walk", "decimal"]),
                               twins=twins, hexcfg=hexcfg, tf=tf, regular=regular, pre_choices=(0, 1, 2, n))
         else:
             cfg = rand_cfg(rng, kind, tf=tf, fill=fill)
             cfg.lifespan, cfg.ctype = lifespan, ctype
-            sc = ind_scenario(rng, f"{pid}/mgr{tag}/{tf}/{t}", "manager", cfg, n, rng.choice(["mixed", "walk"]),
+            sc = ind_scenario(rng, f"{pid}/mgr{tag}/{tf}/{t}", "manager", cfg, n, rng.choice(["mixed", "walk"] if ha else ["mixed", "walk", "decimal"]),
                               twins=twins, tf=tf, regular=regular, pre_choices=(0, 1, 2, n))
         if sc["obj"] == "ind" and rng.random() < 0.25:
             # the candle manager used directly, its timeframe given as string (any case) or enum
@@ -467,7 +469,8 @@ def _scenarios(pid, tier, rng):
     if pid == "C20":
         return fam_reads(rng, pid, k(220, 1300), touches=False)
     if pid == "C08":
-        return fam_hexital(rng, pid, k(220, 1300))
+        # (+ a member that leaves, candles keep arriving, and a member on the same timeframe joins again)
+        return fam_hexital(rng, pid, k(220, 1300)) + fam_readd(rng, pid, k(24, 160), twins=("standalone",))
     if pid == "C07":
         return fam_work(rng, pid, k(110, 600)) + fam_scale(rng, pid, k(40, 260), hists=k((60, 300), (100, 1600)))
     raise KeyError(pid)
@@ -611,7 +614,7 @@ def fam_maintenance(rng, pid, count):
     return out
 
 
-def fam_readd(rng, pid, count):
+def fam_readd(rng, pid, count, twins=("final_batch",)):
     """an indicator that is alone on its timeframe is removed, candles keep arriving, then an
     indicator on the same timeframe is registered again: it must end with the batch readings"""
     out = []
@@ -641,9 +644,9 @@ def fam_readd(rng, pid, count):
         out.append({"id": f"{pid}/readd/{tf}/{t}", "fam": "maint", "obj": "hex", "inds": [a, b], "late": [c],
                     "names_fixed": True,
                     "hex": {}, "stream": make_stream(rng, n, "mixed", tf=tf, regular=regular), "prog": prog,
-                    "twins": ["final_batch"], "member_forms": ["obj", "obj"],
-                    "clause_props": {"exc": ["C14"], "batch": ["C14"], "value": ["C14"], "stage": ["C14"],
-                                     "def": ["C14"]}})
+                    "twins": list(twins), "member_forms": ["obj", "obj"],
+                    "clause_props": {"exc": [pid], "batch": [pid], "value": [pid], "stage": [pid],
+                                     "def": [pid], "standalone": [pid]}})
     return out
 
 
@@ -1024,6 +1027,13 @@ def fam_scale(rng, pid, count, hists=(60, 300)):
         # the measured candle is the same at both history lengths: put it at both positions
         last = st[-1]
         st[hists[0]] = (st[hists[0]][0],) + last[1:]
+        if rng.random() < 0.3:
+            # a lifespan long enough to retain everything: trimming has nothing to do at either length
+            life = timedelta(days=30)
+            if sc["obj"] == "hex":
+                sc["hex"] = {"lifespan": life}
+            else:
+                sc["inds"][0].lifespan = life
         sc.update({"fam": "work", "stream": st, "twins": [], "scale": list(hists), "prog": [],
                    "clause_props": {"work": ["C07"], "exc": ["C07"]}, "names_fixed": True})
         out.append(sc)
@@ -1388,9 +1398,10 @@ def fam_patterns(rng, pid, count):
     return out
 
 
-def amorph_cfg(rng, src_name=None):
+def amorph_cfg(rng, src_name=None, prefer=None):
     # the functions of the movement and pattern maps (above/below are not in them)
-    fn = rng.choice(list(MOVE1) + ["cross", "crossover", "crossunder", "positive", "negative"] + list(PATS))
+    fn = rng.choice(list(prefer) if prefer
+                    else list(MOVE1) + ["cross", "crossover", "crossunder", "positive", "negative"] + list(PATS))
     if fn in PATS:
         return IndCfg("Amorph", fn=fn, p=rng.choice([0, 0, 2, 3]))
     if fn in ("positive", "negative"):
@@ -1408,8 +1419,11 @@ def fam_amorph(rng, pid, count, twins=("batch",)):
     """analysis functions wrapped as indicators: same column live and in batch"""
     out = []
     for t in range(count):
+        # (every third scenario: the two-series functions, whose answer at candle i compares candle i with
+        #  its predecessor -- the ones a one-candle shift in either direction changes)
+        prefer = ("cross", "crossover", "crossunder") if t % 3 == 2 else None
         if t % 2 == 0:
-            cfg = amorph_cfg(rng)
+            cfg = amorph_cfg(rng, prefer=prefer)
             n = rng.randint(12, 18)
             if t % 6 == 4:
                 # the wrapper has already produced readings on a list of its own, then joins a Hexital
@@ -1422,7 +1436,7 @@ def fam_amorph(rng, pid, count, twins=("batch",)):
         else:
             src = rand_cfg(rng, rng.choice(["EMA", "SMA", "RSI", "ATR"]))
             live = src.build(standalone=False).name
-            cfg = amorph_cfg(rng, live)
+            cfg = amorph_cfg(rng, live, prefer=prefer)
             n = rng.randint(14, 20)
             sc = hex_scenario(rng, f"{pid}/amorph/{src.kind}>{cfg.fn}/{t}", "amorph", [src, cfg], n,
                               rng.choice(["walk", "mixed"]), twins, forms=["obj", rng.choice(["obj", "dict", "used"])],
